@@ -130,6 +130,12 @@ func c01Run(c *mon.Ctx, unit int) {
 	for k := 0; k < per; k++ {
 		depth := r.Range(1, 5)
 		root := gen.Shape(r, gen.ShapeOpts{MaxDepth: depth, MaxWidth: 4, OddKeys: r.Chance(1, 4)})
+		if k == 1 {
+			// one schema per unit is large in every direction (a dozen levels, thirty keys, twenty
+			// items, several hundred bytes)
+			root = gen.BigShape(r)
+			c.Count("large schemas (deep chain, wide object, long array)", 1)
+		}
 		text := model.Canonical(root)
 		if r.Chance(1, 4) {
 			// the same schema saved with other line ends / indentation (its meaning is the same)
